@@ -8,6 +8,7 @@ worlds are materialised on disk under a scratch directory (outside /repo and /ve
 import collections
 import copy
 import io
+import re
 import json
 import os
 import yaml
@@ -77,8 +78,11 @@ def plain(o):
     return o
 
 
+from harness.gencfg import QuotingDumper as _QuotingDumper
+
+
 def dump_yaml(tree, v3root=False):
-    text = yaml.safe_dump(plain(tree), sort_keys=False, default_flow_style=False)
+    text = yaml.dump(plain(tree), Dumper=_QuotingDumper, sort_keys=False, default_flow_style=False, allow_unicode=False)
     return (V3TAG if v3root else '') + text
 
 
